@@ -158,3 +158,491 @@ fn c11_split_rhat_is_sqrt_varplus_over_w() {
         );
     }
 }
+
+// =====================================================================================
+// Executable oracles of the contracts (bounded, adversarial enumerations).
+// Used by /verif (a) to replay a failed proof obligation on the real code and (b) as the
+// fallback when the deductive check is undecided after a refactoring.  A failing oracle prints
+// a line `WITNESS {...}` describing the input before it panics.
+// =====================================================================================
+
+mod oracle {
+    use super::*;
+    use mini_mcmc::core::{init_det, init_with_seed, HasChains, MarkovChain};
+    use mini_mcmc::distributions::Conditional;
+    use mini_mcmc::gibbs::GibbsMarkovChain;
+    use mini_mcmc::metropolis_hastings::MHMarkovChain;
+    use std::cell::RefCell;
+    use std::rc::Rc;
+
+    fn witness(s: String) -> ! {
+        println!("WITNESS {s}");
+        panic!("{s}");
+    }
+
+    // ---------------------------------------------------------------- C01 ------------
+    /// log-density given by a table over the states {0,1,2,3} (first coordinate), scaled by `beta`
+    #[derive(Clone)]
+    struct TableTarget<F> {
+        lp: [F; 4],
+        beta: F,
+    }
+    impl Target<i32, f64> for TableTarget<f64> {
+        fn unnorm_logp(&self, p: &[i32]) -> f64 {
+            self.beta * self.lp[(p[0].rem_euclid(4)) as usize]
+        }
+    }
+    impl Target<i32, f32> for TableTarget<f32> {
+        fn unnorm_logp(&self, p: &[i32]) -> f32 {
+            self.beta * self.lp[(p[0].rem_euclid(4)) as usize]
+        }
+    }
+    /// deterministic proposal x -> (x + jump) mod 4 with an arbitrary (asymmetric) log q table
+    #[derive(Clone)]
+    struct TableProposal<F> {
+        jump: i32,
+        lq: [[F; 4]; 4],
+    }
+    impl Proposal<i32, f64> for TableProposal<f64> {
+        fn sample(&mut self, c: &[i32]) -> Vec<i32> {
+            vec![(c[0] + self.jump).rem_euclid(4)]
+        }
+        fn logp(&self, from: &[i32], to: &[i32]) -> f64 {
+            self.lq[from[0].rem_euclid(4) as usize][to[0].rem_euclid(4) as usize]
+        }
+        fn set_seed(self, _s: u64) -> Self {
+            self
+        }
+    }
+    impl Proposal<i32, f32> for TableProposal<f32> {
+        fn sample(&mut self, c: &[i32]) -> Vec<i32> {
+            vec![(c[0] + self.jump).rem_euclid(4)]
+        }
+        fn logp(&self, from: &[i32], to: &[i32]) -> f32 {
+            self.lq[from[0].rem_euclid(4) as usize][to[0].rem_euclid(4) as usize]
+        }
+        fn set_seed(self, _s: u64) -> Self {
+            self
+        }
+    }
+    /// generator whose next uniform (f32 and f64) is exactly 0.0: xoshiro256++ state [0,1,0,0]
+    fn rng_with_zero_uniform() -> SmallRng {
+        let mut seed = [0u8; 32];
+        seed[8] = 1;
+        let r = SmallRng::from_seed(seed);
+        assert_eq!(r.clone().random::<f64>(), 0.0);
+        assert_eq!(r.clone().random::<f32>(), 0.0);
+        r
+    }
+
+    macro_rules! c01_oracle {
+        ($name:ident, $F:ty) => {
+            #[test]
+            fn $name() {
+                let inf = <$F>::INFINITY;
+                let nan = <$F>::NAN;
+                let vals: [$F; 7] = [0.0, -1.5, 3.0, -inf, inf, nan, -800.0];
+                let mut cases = 0u64;
+                for a in 0..vals.len() {
+                    for b in 0..vals.len() {
+                        for qa in [0usize, 1, 3, 4, 5, 6] {
+                            for qb in [0usize, 2, 3, 5] {
+                                for zero_u in [false, true] {
+                                    // lp(0)=vals[a], lp(1)=vals[b]; q(0->1)=vals[qa], q(1->0)=vals[qb]
+                                    let mut lq = [[0.0 as $F; 4]; 4];
+                                    lq[0][1] = vals[qa];
+                                    lq[1][0] = vals[qb];
+                                    let target = TableTarget::<$F> { lp: [vals[a], vals[b], 0.5, -0.5], beta: 1.0 };
+                                    let proposal = TableProposal::<$F> { jump: 1, lq };
+                                    let mut chain: MHMarkovChain<i32, $F, _, _> = MHMarkovChain::new(target, proposal, vec![0]);
+                                    chain.rng = if zero_u { rng_with_zero_uniform() } else { SmallRng::seed_from_u64(cases) };
+                                    // two steps: the second one after the state/target were changed through the public fields
+                                    for step in 0..2 {
+                                        if step == 1 {
+                                            chain.current_state = vec![0];
+                                            chain.target.beta = 2.0;
+                                        }
+                                        let x = chain.current_state.clone();
+                                        let y = vec![(x[0] + 1).rem_euclid(4)];
+                                        let mut probe = chain.rng.clone();
+                                        let u: $F = probe.random();
+                                        let next_u: $F = probe.random();
+                                        let lpx = chain.target.unnorm_logp(&x);
+                                        let lpy = chain.target.unnorm_logp(&y);
+                                        let ratio = (lpy + chain.proposal.logp(&y, &x)) - (lpx + chain.proposal.logp(&x, &y));
+                                        let want = if u.ln() < ratio { y.clone() } else { x.clone() };
+                                        let got = chain.step().clone();
+                                        cases += 1;
+                                        if got != want {
+                                            witness(format!(
+                                                "{{\"oracle\":\"c01\",\"float\":\"{}\",\"lp_x\":\"{}\",\"lp_y\":\"{}\",\"q_xy\":\"{}\",\"q_yx\":\"{}\",\"u\":\"{}\",\"step\":{},\"x\":{:?},\"y\":{:?},\"got\":{:?},\"want\":{:?}}}",
+                                                stringify!($F), lpx, lpy, chain.proposal.logp(&x, &y), chain.proposal.logp(&y, &x), u, step, x, y, got, want
+                                            ));
+                                        }
+                                        let after: $F = chain.rng.clone().random();
+                                        if after.to_bits() != next_u.to_bits() {
+                                            witness(format!("{{\"oracle\":\"c01\",\"what\":\"acceptance generator advanced by other than one uniform draw\",\"step\":{}}}", step));
+                                        }
+                                    }
+                                }
+                            }
+                        }
+                    }
+                }
+                assert!(cases > 1000);
+            }
+        };
+    }
+    c01_oracle!(oracle_c01_mh_rule_f64, f64);
+    c01_oracle!(oracle_c01_mh_rule_f32, f32);
+
+    // ---------------------------------------------------------------- C05 ------------
+    #[derive(Clone)]
+    struct Recorder {
+        calls: Rc<RefCell<Vec<(usize, Vec<f64>)>>>,
+        counter: Rc<RefCell<f64>>,
+    }
+    impl Conditional<f64> for Recorder {
+        fn sample(&mut self, i: usize, given: &[f64]) -> f64 {
+            self.calls.borrow_mut().push((i, given.to_vec()));
+            *self.counter.borrow_mut() += 1.0;
+            1000.0 + *self.counter.borrow()
+        }
+    }
+    fn check_sweep(chain: &mut GibbsMarkovChain<f64, Recorder>, tag: &str) {
+        let calls = chain.target.calls.clone();
+        calls.borrow_mut().clear();
+        let before = chain.current_state.clone();
+        let d = before.len();
+        let after = chain.step().clone();
+        let calls = calls.borrow().clone();
+        let fail = |msg: String| -> ! { witness(format!("{{\"oracle\":\"c05\",\"case\":\"{tag}\",\"dim\":{d},\"what\":\"{msg}\"}}")) };
+        if calls.len() != d {
+            fail(format!("conditional asked {} times", calls.len()));
+        }
+        let mut seen = vec![false; d];
+        let mut cur = before.clone();
+        for (k, (i, given)) in calls.iter().enumerate() {
+            if *i >= d || seen[*i] {
+                fail(format!("call {k} asks coordinate {i} (out of range or twice)"));
+            }
+            seen[*i] = true;
+            if *given != cur {
+                fail(format!("call {k} (coordinate {i}) did not see the freshest state"));
+            }
+            // the value returned by call k is 1000 + (counter after the call)
+            cur[*i] = after[*i];
+        }
+        if cur != after || after.len() != d {
+            fail("final state is not the old state with every coordinate replaced by its answer".to_string());
+        }
+    }
+    #[test]
+    fn oracle_c05_gibbs_sweep() {
+        for d in 1..=70usize {
+            let rec = Recorder { calls: Rc::new(RefCell::new(vec![])), counter: Rc::new(RefCell::new(0.0)) };
+            let init: Vec<f64> = (0..d).map(|i| i as f64).collect();
+            let mut chain = GibbsMarkovChain::new(rec, &init);
+            check_sweep(&mut chain, "fresh");
+            check_sweep(&mut chain, "second step");
+            // the state is a public field: a warm start with a state of another length
+            chain.current_state = (0..d + 1).map(|i| -(i as f64)).collect();
+            check_sweep(&mut chain, "longer state assigned");
+            if d > 1 {
+                chain.current_state = (0..d - 1).map(|i| -(i as f64)).collect();
+                check_sweep(&mut chain, "shorter state assigned");
+            }
+        }
+    }
+
+    // ---------------------------------------------------------------- C09 ------------
+    /// a deterministic chain that counts its transitions: state = [steps, 10*id + steps]
+    #[derive(Clone)]
+    pub struct Counter {
+        pub state: Vec<f64>,
+        pub id: f64,
+    }
+    impl MarkovChain<f64> for Counter {
+        fn step(&mut self) -> &Vec<f64> {
+            self.state[0] += 1.0;
+            self.state[1] = 1000.0 * self.id + self.state[0];
+            &self.state
+        }
+        fn current_state(&self) -> &Vec<f64> {
+            &self.state
+        }
+    }
+    pub struct Counters {
+        pub chains: Vec<Counter>,
+    }
+    impl HasChains<f64> for Counters {
+        type Chain = Counter;
+        fn chains_mut(&mut self) -> &mut Vec<Counter> {
+            &mut self.chains
+        }
+    }
+    fn counters(n: usize) -> Counters {
+        Counters { chains: (0..n).map(|c| Counter { state: vec![0.0, 1000.0 * c as f64], id: c as f64 }).collect() }
+    }
+    #[test]
+    fn oracle_c09_run_counts_order_continuation() {
+        for n_chains in [1usize, 2, 3, 5] {
+            for n_collect in [0usize, 1, 2, 3, 5] {
+                for n_discard in [0usize, 1, 4] {
+                    let mut s = counters(n_chains);
+                    let out = s.run(n_collect, n_discard).unwrap();
+                    let ctx = format!("\"n_chains\":{n_chains},\"n_collect\":{n_collect},\"n_discard\":{n_discard}");
+                    if out.shape() != [n_chains, n_collect, 2] {
+                        witness(format!("{{\"oracle\":\"c09\",{ctx},\"what\":\"shape {:?}\"}}", out.shape()));
+                    }
+                    for c in 0..n_chains {
+                        for k in 0..n_collect {
+                            let want0 = (n_discard + k + 1) as f64;
+                            let want1 = 1000.0 * c as f64 + want0;
+                            if out[[c, k, 0]] != want0 || out[[c, k, 1]] != want1 {
+                                witness(format!("{{\"oracle\":\"c09\",{ctx},\"what\":\"entry [{c},{k}] is ({}, {}) but the state after {} transitions of chain {c} is ({want0}, {want1})\"}}", out[[c, k, 0]], out[[c, k, 1]], n_discard + k + 1));
+                            }
+                        }
+                        if s.chains[c].state[0] != (n_collect + n_discard) as f64 {
+                            witness(format!("{{\"oracle\":\"c09\",{ctx},\"what\":\"chain {c} performed {} transitions, expected {}\"}}", s.chains[c].state[0], n_collect + n_discard));
+                        }
+                    }
+                    // continuation: a following run starts from the last returned state
+                    let out2 = s.run(2, 0).unwrap();
+                    for c in 0..n_chains {
+                        if out2[[c, 0, 0]] != (n_collect + n_discard + 1) as f64 {
+                            witness(format!("{{\"oracle\":\"c09\",{ctx},\"what\":\"second run of chain {c} starts at transition {} instead of {}\"}}", out2[[c, 0, 0]], n_collect + n_discard + 1));
+                        }
+                    }
+                }
+            }
+        }
+        // run_chain itself
+        for n_collect in [0usize, 1, 3] {
+            for n_discard in [0usize, 2] {
+                let mut ch = Counter { state: vec![0.0, 0.0], id: 0.0 };
+                let out = mini_mcmc::core::run_chain(&mut ch, n_collect, n_discard);
+                assert_eq!(out.shape(), [n_collect, 2]);
+                for k in 0..n_collect {
+                    if out[[k, 0]] != (n_discard + k + 1) as f64 {
+                        witness(format!("{{\"oracle\":\"c09\",\"what\":\"run_chain row {k} holds transition {} (n_discard {n_discard})\"}}", out[[k, 0]]));
+                    }
+                }
+                if ch.state[0] != (n_collect + n_discard) as f64 {
+                    witness(format!("{{\"oracle\":\"c09\",\"what\":\"run_chain performed {} transitions\"}}", ch.state[0]));
+                }
+            }
+        }
+    }
+    #[test]
+    fn oracle_c09_mh_gibbs_two_runs_equal_one_long_run() {
+        let mk = || MetropolisHastings::new(Flat, IsotropicGaussian::<f64>::new(1.0), vec![vec![0.0, 1.0], vec![2.0, 3.0], vec![4.0, 5.0]]).seed(11);
+        let long = mk().run(7, 3).unwrap();
+        let mut two = mk();
+        let a = two.run(3, 3).unwrap();
+        let b = two.run(4, 0).unwrap();
+        for c in 0..3 {
+            for k in 0..7 {
+                for j in 0..2 {
+                    let got = if k < 3 { a[[c, k, j]] } else { b[[c, k - 3, j]] };
+                    if got != long[[c, k, j]] {
+                        witness(format!("{{\"oracle\":\"c09\",\"what\":\"MH: run(3,3) then run(4,0) differs from run(7,3) at [{c},{k},{j}]\"}}"));
+                    }
+                }
+            }
+        }
+        // row c belongs to the c-th initial state (identity target keeps chains near their start with a tiny proposal)
+        let mut mh = MetropolisHastings::new(Flat, IsotropicGaussian::<f64>::new(1e-6), vec![vec![0.0], vec![100.0], vec![200.0]]).seed(5);
+        let out = mh.run(1, 0).unwrap();
+        for c in 0..3 {
+            if (out[[c, 0, 0]] - 100.0 * c as f64).abs() > 1.0 {
+                witness(format!("{{\"oracle\":\"c09\",\"what\":\"MH row {c} does not belong to initial state {c}\"}}"));
+            }
+        }
+    }
+
+    // ---------------------------------------------------------------- C07 / C08 ------
+    #[test]
+    fn oracle_c07_seeded_mh_reproducible_all_seeds_and_pools() {
+        for seed in [0u64, 1, 42, u64::MAX - 1, u64::MAX] {
+            let run = |threads: usize| {
+                let pool = rayon::ThreadPoolBuilder::new().num_threads(threads).build().unwrap();
+                pool.install(|| {
+                    let mut mh = MetropolisHastings::new(Flat, IsotropicGaussian::<f64>::new(1.0), vec![vec![0.0, 0.0]; 4]).seed(seed);
+                    mh.run(6, 2).unwrap()
+                })
+            };
+            let a = run(1);
+            let b = run(4);
+            let c = run(1);
+            if a != b || a != c {
+                witness(format!("{{\"oracle\":\"c07\",\"seed\":{seed},\"what\":\"seeded MH run is not reproducible across repetitions / thread-pool sizes\"}}"));
+            }
+            let mut other = MetropolisHastings::new(Flat, IsotropicGaussian::<f64>::new(1.0), vec![vec![0.0, 0.0]; 4]).seed(seed.wrapping_add(12345));
+            if other.run(6, 2).unwrap() == a {
+                witness(format!("{{\"oracle\":\"c07\",\"seed\":{seed},\"what\":\"a different seed gave identical output\"}}"));
+            }
+        }
+    }
+    /// a proposal that remembers how it was seeded
+    #[derive(Clone)]
+    struct SeedSpy {
+        seeds: Vec<u64>,
+    }
+    impl Proposal<f64, f64> for SeedSpy {
+        fn sample(&mut self, c: &[f64]) -> Vec<f64> {
+            c.to_vec()
+        }
+        fn logp(&self, _f: &[f64], _t: &[f64]) -> f64 {
+            0.0
+        }
+        fn set_seed(mut self, s: u64) -> Self {
+            self.seeds.push(s);
+            self
+        }
+    }
+    #[test]
+    fn oracle_c08_mh_streams_pairwise_distinct() {
+        for n in [2usize, 3, 8, 64] {
+            for seed in [0u64, 7, u64::MAX, u64::MAX - 3] {
+                for seeded in [false, true] {
+                    let mut mh = MetropolisHastings::new(Flat, SeedSpy { seeds: vec![] }, vec![vec![0.0]; n]);
+                    if seeded {
+                        mh = mh.seed(seed);
+                    }
+                    let ctx = format!("\"chains\":{n},\"seed\":{seed},\"seeded\":{seeded}");
+                    let last: Vec<Option<u64>> = mh.chains.iter().map(|c| c.proposal.seeds.last().copied()).collect();
+                    for i in 0..n {
+                        if last[i].is_none() {
+                            witness(format!("{{\"oracle\":\"c08\",{ctx},\"what\":\"chain {i} keeps a clone of the shared proposal generator (never re-seeded)\"}}"));
+                        }
+                        for j in 0..i {
+                            if last[i] == last[j] {
+                                witness(format!("{{\"oracle\":\"c08\",{ctx},\"what\":\"chains {j} and {i} seed their proposals identically\"}}"));
+                            }
+                            if mh.chains[i].rng == mh.chains[j].rng {
+                                witness(format!("{{\"oracle\":\"c08\",{ctx},\"what\":\"chains {j} and {i} share the acceptance generator state\"}}"));
+                            }
+                        }
+                        for j in 0..n {
+                            if SmallRng::seed_from_u64(last[i].unwrap()) == mh.chains[j].rng {
+                                witness(format!("{{\"oracle\":\"c08\",{ctx},\"what\":\"proposal generator of chain {i} is seeded like the acceptance generator of chain {j}\"}}"));
+                            }
+                        }
+                    }
+                }
+            }
+        }
+    }
+
+    // ---------------------------------------------------------------- C16 ------------
+    #[test]
+    fn oracle_c16_categorical() {
+        let zero_seed = seed_with_first_uniform_zero();
+        let pats: Vec<Vec<f32>> = vec![
+            vec![1.0], vec![0.0, 1.0], vec![1.0, 0.0], vec![0.0, 1.0, 0.0], vec![0.0, 0.0, 3.0], vec![2.0, 0.0, 0.0, 2.0],
+            vec![0.0, 5.0, 0.0, 5.0, 0.0], vec![1e-3, 0.0, 1e3], vec![0.1; 10], vec![0.0, 1e-30, 0.0], vec![7.0, 0.0, 0.0, 0.0, 0.0, 0.0],
+        ];
+        for w in pats {
+            let sum: f32 = w.iter().sum();
+            for seed in (0..300u64).chain([zero_seed]) {
+                let mut cat = Categorical::<f32>::with_rng(w.clone(), SmallRng::seed_from_u64(seed));
+                let r: f32 = SmallRng::seed_from_u64(seed).random();
+                let total: f32 = cat.probs.iter().sum();
+                if (total - 1.0).abs() > 1e-5 {
+                    witness(format!("{{\"oracle\":\"c16\",\"weights\":{w:?},\"what\":\"probabilities sum to {total}\"}}"));
+                }
+                for (i, wi) in w.iter().enumerate() {
+                    let want = (wi / sum).ln();
+                    let got = cat.logp(i);
+                    if !(got == want || (got - want).abs() <= 1e-5 * want.abs().max(1.0)) {
+                        witness(format!("{{\"oracle\":\"c16\",\"weights\":{w:?},\"what\":\"logp({i}) = {got}, ln p = {want}\"}}"));
+                    }
+                }
+                if cat.logp(w.len()) != f32::NEG_INFINITY || cat.logp(w.len() + 5) != f32::NEG_INFINITY {
+                    witness(format!("{{\"oracle\":\"c16\",\"weights\":{w:?},\"what\":\"logp of an invalid index is not -inf\"}}"));
+                }
+                let k = cat.sample();
+                if k >= w.len() {
+                    witness(format!("{{\"oracle\":\"c16\",\"weights\":{w:?},\"seed\":{seed},\"what\":\"index {k} out of range\"}}"));
+                }
+                if !(cat.probs[k] > 0.0) {
+                    witness(format!("{{\"oracle\":\"c16\",\"weights\":{w:?},\"seed\":{seed},\"r\":{r},\"what\":\"returned category {k} of probability {}\"}}", cat.probs[k]));
+                }
+                let lo: f32 = cat.probs[..k].iter().sum();
+                let hi: f32 = lo + cat.probs[k];
+                if !(lo - 1e-5 <= r && r <= hi + 1e-5) {
+                    witness(format!("{{\"oracle\":\"c16\",\"weights\":{w:?},\"seed\":{seed},\"r\":{r},\"what\":\"category {k} with cumulative bracket [{lo}, {hi}] does not contain r\"}}"));
+                }
+            }
+        }
+    }
+
+    // ---------------------------------------------------------------- C18 ------------
+    #[test]
+    fn oracle_c18_init_helpers() {
+        for n in [0usize, 1, 2, 5, 17] {
+            for d in [0usize, 1, 3, 8] {
+                for seed in [0u64, 42, 99, u64::MAX] {
+                    let a: Vec<Vec<f64>> = init_with_seed(n, d, seed);
+                    let b: Vec<Vec<f64>> = init_with_seed(n, d, seed);
+                    let ctx = format!("\"n\":{n},\"d\":{d},\"seed\":{seed}");
+                    if a != b {
+                        witness(format!("{{\"oracle\":\"c18\",{ctx},\"what\":\"init_with_seed is not a function of its arguments\"}}"));
+                    }
+                    if a.len() != n || a.iter().any(|r| r.len() != d) || a.iter().flatten().any(|x| !x.is_finite()) {
+                        witness(format!("{{\"oracle\":\"c18\",{ctx},\"what\":\"wrong shape or non-finite entry\"}}"));
+                    }
+                    let big: Vec<Vec<f64>> = init_with_seed(n + 3, d, seed);
+                    if big[..n] != a[..] {
+                        witness(format!("{{\"oracle\":\"c18\",{ctx},\"what\":\"first rows of a larger request differ from the smaller request\"}}"));
+                    }
+                    if seed == 42 && init_det::<f64>(n, d) != a {
+                        witness(format!("{{\"oracle\":\"c18\",{ctx},\"what\":\"init_det differs from init_with_seed(.., 42)\"}}"));
+                    }
+                    let f: Vec<Vec<f32>> = init_with_seed(n, d, seed);
+                    if f.len() != n || f.iter().any(|r| r.len() != d) {
+                        witness(format!("{{\"oracle\":\"c18\",{ctx},\"what\":\"f32 shape\"}}"));
+                    }
+                    if n * d >= 4 {
+                        let other: Vec<Vec<f64>> = init_with_seed(n, d, seed.wrapping_add(1));
+                        if other == a {
+                            witness(format!("{{\"oracle\":\"c18\",{ctx},\"what\":\"a different seed gives identical positions\"}}"));
+                        }
+                    }
+                }
+                let r: Vec<Vec<f32>> = mini_mcmc::core::init(n, d);
+                if r.len() != n || r.iter().any(|x| x.len() != d) {
+                    witness(format!("{{\"oracle\":\"c18\",\"n\":{n},\"d\":{d},\"what\":\"init shape\"}}"));
+                }
+            }
+        }
+    }
+
+    // ---------------------------------------------------------------- C11 ------------
+    #[test]
+    fn oracle_c11_split_rhat_grid() {
+        use mini_mcmc::stats::split_rhat_mean_ess;
+        for n_chains in [1usize, 2, 3, 5] {
+            for n in [4usize, 5, 9, 40, 101] {
+                for n_params in [1usize, 2, 3] {
+                    for (shift, scale) in [(0.0f64, 1.0f64), (3.0, 1.0), (50.0, 0.01), (-7.0, 20.0)] {
+                        let val = |c: usize, t: usize, p: usize| -> f64 {
+                            (((t * 7 + c * 3 + p * 5) % 11) as f64 * 0.5 + shift * (c as f64) * (p as f64 + 1.0) + 0.01 * (t as f64) * (p as f64)) * scale
+                        };
+                        let arr = ndarray::Array3::from_shape_fn((n_chains, n, n_params), |(c, t, p)| val(c, t, p) as f32);
+                        let (rhat, _ess) = split_rhat_mean_ess(arr.view());
+                        for p in 0..n_params {
+                            let chains: Vec<Vec<f64>> = (0..n_chains).map(|c| (0..n).map(|t| (val(c, t, p) as f32) as f64).collect()).collect();
+                            let want = reference_split_rhat(&chains);
+                            let got = rhat[p] as f64;
+                            if !((got - want).abs() <= 2e-3 * want.abs()) {
+                                witness(format!("{{\"oracle\":\"c11\",\"chains\":{n_chains},\"draws\":{n},\"params\":{n_params},\"param\":{p},\"shift\":{shift},\"scale\":{scale},\"got\":{got},\"want\":{want}}}"));
+                            }
+                        }
+                    }
+                }
+            }
+        }
+    }
+}
